@@ -47,6 +47,10 @@ pub struct ConcPlan {
     /// SQLite: the servers own the concrete storage (no wrapper); scheduling points at VFS calls
     #[serde(default)]
     pub raw_storage: bool,
+    /// SQLite: the requests of the LAST simulated thread are served by a server in ANOTHER PROCESS
+    /// on the same directory (see xproc.rs): process-wide state of the code under test is not shared
+    #[serde(default)]
+    pub xproc: bool,
 }
 
 pub fn gen_plan(seed: u64, backend: Backend, entry: Entry, thorough: bool) -> ConcPlan {
@@ -150,7 +154,22 @@ pub fn gen_plan(seed: u64, backend: Backend, entry: Entry, thorough: bool) -> Co
         same_worker: entry == Entry::Http && r.chance(22, 100),
         raw_storage: backend == Backend::Sqlite && r.chance(35, 100),
         crash_images: if backend == Backend::Sqlite && r.chance(if thorough { 30 } else { 15 }, 100) { 1 + r.below(2) as u8 } else { 0 },
+        xproc: backend == Backend::Sqlite && r.chance(14, 100),
     }
+}
+
+/// Two threads on one SQLite directory: one in this process, one served by another process. With a
+/// single in-process thread nothing ever waits on process-wide state of the code under test, so
+/// these runs stay fast whatever that code does.
+pub fn gen_plan_xproc(seed: u64, entry: Entry, thorough: bool) -> ConcPlan {
+    let mut p = gen_plan(seed, Backend::Sqlite, entry, thorough);
+    p.xproc = true;
+    p.same_worker = false;
+    p.crash_images = 0;
+    if p.batch.len() > 2 {
+        p.batch.truncate(2);
+    }
+    p
 }
 
 #[derive(Clone, Debug)]
@@ -303,7 +322,14 @@ pub fn exec(plan: &ConcPlan) -> RunOut {
     }
     let done: Mutex<Vec<Done>> = Mutex::new(Vec::new());
     let t_batch = sched::now_us();
-    let capture = plan.crash_images > 0 && plan.backend == Backend::Sqlite;
+    let w_dir: Option<std::path::PathBuf> = w.store.dir.as_ref().map(|d| d.to_path_buf());
+    let xproc = plan.xproc && plan.backend == Backend::Sqlite && n_threads >= 2 && w.store.dir.is_some();
+    if xproc {
+        out.bump("cfg.one_thread_served_by_another_process");
+    }
+    let xproc_skipped = std::sync::atomic::AtomicU64::new(0);
+    let xproc_err: Mutex<Option<String>> = Mutex::new(None);
+    let capture = plan.crash_images > 0 && plan.backend == Backend::Sqlite && !xproc;
     if capture {
         if let Some(d) = &w.store.dir {
             crate::vfs::track(d);
@@ -314,7 +340,7 @@ pub fn exec(plan: &ConcPlan) -> RunOut {
         }
     }
     crate::vfs::set_sched_points(raw_mode);
-    let same_worker = plan.same_worker && http;
+    let same_worker = plan.same_worker && http && !xproc;
     if same_worker {
         out.bump("cfg.same_worker_async_interleaving");
     }
@@ -365,12 +391,32 @@ pub fn exec(plan: &ConcPlan) -> RunOut {
     } else {
         sched::run_threads(n_threads, &plan.sched, 20_000, |tid| {
         let mut apps: Vec<Option<HttpApp>> = (0..insts.len()).map(|_| None).collect();
-        for (req, ch, ii) in &reqs[tid] {
+        for (k, (req, ch, ii)) in reqs[tid].iter().enumerate() {
             let inst = &insts[*ii];
             let inv = sched::stamp();
             // the serving instance reads the simulated clock plus its own skew
             let t_inv = sched::now_us() + inst.skew_us;
-            let resp = if http {
+            let resp = if xproc && tid == n_threads - 1 {
+                // one atomic step of this thread: the other process serves the request while every
+                // thread of this process is parked where it is, holding the file locks it holds
+                match crate::xproc::call(w_dir.as_ref().unwrap(), plan.cfg, http, inst.skew_us, plan.seed, 90_000_000 + k as u64 * 1000, req, ch) {
+                    Ok((Resp::Error(e), _)) if e.starts_with("cannot open the data directory") => {
+                        // the other process could not even start (directory busy): no request was made
+                        xproc_skipped.fetch_add(1, std::sync::atomic::Ordering::SeqCst);
+                        continue;
+                    }
+                    Ok((r, slept)) => {
+                        if slept > 0 {
+                            sched::sleep_us(slept, sched::Site::BusySleep);
+                        }
+                        r
+                    }
+                    Err(e) => {
+                        *xproc_err.lock().unwrap() = Some(e);
+                        continue;
+                    }
+                }
+            } else if http {
                 if apps[*ii].is_none() {
                     apps[*ii] = Some(HttpApp::new(&inst.web));
                 }
@@ -389,6 +435,13 @@ pub fn exec(plan: &ConcPlan) -> RunOut {
         })
     };
     crate::vfs::set_sched_points(false);
+    if let Some(e) = xproc_err.into_inner().unwrap() {
+        out.harness_error = Some(format!("cross-process request could not be run: {e}"));
+        return out;
+    }
+    if xproc {
+        out.add("probe.xproc.other_process_could_not_open_directory", xproc_skipped.load(std::sync::atomic::Ordering::SeqCst));
+    }
     let images = if capture {
         crate::vfs::pause_capture(true);
         crate::vfs::set_capture(false, 0, false, 0);
@@ -763,6 +816,11 @@ pub fn shrink(plan: &ConcPlan) -> Vec<ConcPlan> {
     if plan.page_size.is_some() {
         let mut p = plan.clone();
         p.page_size = None;
+        c.push(p);
+    }
+    if plan.xproc {
+        let mut p = plan.clone();
+        p.xproc = false;
         c.push(p);
     }
     if plan.same_worker {
